@@ -215,6 +215,26 @@ class HSymList:
         return HSymList(self.seq)
 
 
+class HBuf:
+    """bytearray: a mutable byte sequence"""
+    def __init__(self, seq):
+        self.seq = seq
+
+    def clone(self):
+        return HBuf(self.seq)
+
+
+class VView(V):
+    """memoryview over the bytearray at addr: its bytes lo .. hi (absolute offsets into the buffer, z3 Ints)"""
+    def __init__(self, addr, lo, hi):
+        self.addr = addr
+        self.lo = lo
+        self.hi = hi
+
+    def __repr__(self):
+        return f'View({self.addr},{self.lo},{self.hi})'
+
+
 class HDict:
     """dict with concrete (python) keys"""
     def __init__(self, items=None):
